@@ -100,6 +100,8 @@ func main() {
 		cmdLoopSplit(in)
 	case "stmts":
 		cmdStmts(in)
+	case "consts":
+		cmdConsts(in)
 	default:
 		fmt.Fprintln(os.Stderr, "unknown command", os.Args[1])
 		os.Exit(2)
